@@ -1163,6 +1163,18 @@ func (g *Gen) opRefBurst(conns []*Client) {
 			g.w.Exec(Op{K: "custom", S: on, M: "custom"})
 		}
 	}
+	// an access re-check of the holder is triggered while the event that added
+	// the reference may still be waiting for the target: it is deferred behind it
+	if g.wt("reaccess") > 0 && rapid.IntRange(0, 2).Draw(g.t, "rbtrigger") == 0 {
+		switch rapid.IntRange(0, 2).Draw(g.t, "rbtrigkind") {
+		case 0:
+			g.w.Exec(Op{K: "reaccess", S: holder})
+		case 1:
+			g.w.Exec(Op{K: "sysreset", P: `{"access":[` + jstr(holder) + `]}`})
+		default:
+			g.w.Exec(Op{K: "token", C: c.Idx, P: g.sample("token", g.tokens())})
+		}
+	}
 	// the holder is released while the event that added the reference may still
 	// be waiting for the target
 	if rapid.IntRange(0, 3).Draw(g.t, "rbrelease") == 0 {
